@@ -21,12 +21,33 @@ for f in sorted(os.listdir(props)):
         doc = ' '.join((mm.group(1) or '').split())
         # keep only the docstring immediately preceding
         if mm.group(2) in real_names:
-            thms.append({'name': ns + '.' + mm.group(2), 'statement': doc[-600:]})
+            thms.append({'name': ns + '.' + mm.group(2), 'statement': doc[-600:], 'module': 'MsmVerif.Props.' + modname})
     if pid in reg:
         reg[pid]['modules'].append('MsmVerif.Props.' + modname)
         reg[pid]['theorems'] += thms
     else:
         reg[pid] = {'modules': ['MsmVerif.Props.' + modname], 'theorems': thms}
+# refinement theorems (translated kernel = model), MsmVerif/Refine/<Topic>.lean: obligations of the properties whose kernels they cover
+REFINE_MAP = {'Msm': ['C01', 'C11'], 'Coring': ['C05'], 'Events': ['C06', 'C11'], 'Mcmc': ['C07', 'C08'], 'Compare': ['C13']}
+refine = os.path.join(HOME, 'lean', 'MsmVerif', 'Refine')
+for topic, pids in REFINE_MAP.items():
+    f = os.path.join(refine, topic + '.lean')
+    if not os.path.exists(f):
+        continue
+    src = open(f).read()
+    ns = re.search(r'^namespace\s+(\S+)', src, re.M).group(1)
+    from core import strip_comments
+    real_names = set(re.findall(r'^theorem\s+(\S+)', strip_comments(src), re.M))
+    thms = []
+    for mm in re.finditer(r'(?:/--((?:(?!-/).)*)-/\s*)?(?:@\[[^\]]*\]\s*)?^theorem\s+(\S+)', src, re.S | re.M):
+        doc = ' '.join((mm.group(1) or '').split())
+        if mm.group(2) in real_names:
+            thms.append({'name': ns + '.' + mm.group(2), 'statement': '[refinement: translated kernel = model] ' + doc[-600:],
+                         'module': 'MsmVerif.Refine.' + topic})
+    for pid in pids:
+        reg.setdefault(pid, {'modules': [], 'theorems': []})
+        reg[pid]['modules'].append('MsmVerif.Refine.' + topic)
+        reg[pid]['theorems'] += thms
 DEFAULT_MODULES = {'C01': 'Msm', 'C02': 'Heap', 'C03': 'Linalg', 'C04': 'Linalg', 'C05': 'Coring', 'C06': 'Events', 'C07': 'Mcmc',
                    'C08': 'Events', 'C09': 'Linalg', 'C10': 'Timescales', 'C11': 'Msm', 'C12': 'Basic', 'C13': 'Compare', 'C14': 'Linalg',
                    'C15': 'Relabel', 'C16': 'TextIO', 'C17': 'Basic', 'C18': 'Heap', 'C19': 'TextIO', 'C20': 'Filter'}
